@@ -178,6 +178,8 @@ def plan(tier, rng, sl, nslices, stats):
     for i in range(cfg["random"]):
         if i % 8 == 0:
             yield special(rng)
+        elif i % 40 == 39:
+            yield gcfg.large_case(rng)
         else:
             yield gcfg.random_case(rng, max_terms=2, max_body=rng.choice([2, 3, 4]))
     if cfg.get("exhaustive"):
